@@ -69,6 +69,8 @@ type engine struct {
 	le    *logrus.Entry
 	local *p2ptls.Identity
 	rsa   *rsa.PrivateKey
+
+	caseNo int // wave 4: rotates the odd expected-id forms over the cases
 }
 
 // ---- identity keys -------------------------------------------------------------------------
@@ -482,10 +484,26 @@ func (e *engine) runCase(tc tcase) {
 		}
 		parsed = append(parsed, c)
 	}
-	for _, rm := range []struct {
+	type rmT struct {
 		name string
 		id   peer.ID
-	}{{"any", ""}, {"right", right}, {"wrong", e.newID().id}} {
+	}
+	rms := []rmT{{"any", ""}, {"right", right}, {"wrong", e.newID().id}}
+	// wave 4: expected ids that are well formed but keyless / undecodable / alias encodings of the
+	// answering key (w4.go) — five (round robin over the 15 forms) for a chain that must be accepted, one otherwise
+	rightPub := other.pub
+	if tc.ident != nil {
+		rightPub = tc.ident.pub
+	}
+	nOdd := 1
+	if tc.want == 1 {
+		nOdd = 5
+	}
+	e.caseNo += nOdd // round robin over the 15 forms
+	for _, o := range e.oddPick(rightPub, e.caseNo, nOdd) {
+		rms = append(rms, rmT{"odd:" + o.name, o.id})
+	}
+	for _, rm := range rms {
 		op := fmt.Sprintf("tls.vpc remote=%s %s", lib.Hex([]byte(rm.id)), rawArgs(tc.raw))
 		model := e.oracleQuery(op)
 		var got []byte
@@ -529,11 +547,14 @@ func (e *engine) runCase(tc tcase) {
 				mon = "the handshake yielded a key other than the one that signed the certificate key (" + tc.gen + ")"
 			}
 		default:
-			if tc.want == 1 && rm.name != "wrong" && mon == "" {
+			if tc.want == 1 && (rm.name == "any" || rm.name == "right") && mon == "" {
 				mon = "the handshake with an honest peer was refused: " + impl + " (" + tc.gen + ", remote " + rm.name + ")"
 			}
 		}
 		e.rep.Compare(op, model, impl, "vpc."+branchOf(model), "tls.vpc:"+tc.gen+"/"+rm.name, mon)
+		if strings.HasPrefix(rm.name, "odd:") {
+			e.rep.Branches["vpc.expect-"+strings.SplitN(rm.name[4:], "-", 2)[0]]++
+		}
 	}
 }
 
@@ -1048,7 +1069,8 @@ type job struct {
 	via     string // "conn" | "pconn"
 	gen     string
 	hDials  bool
-	expect  string // "any" | "right" | "wrong"
+	expect  string  // "any" | "right" | "wrong" | "odd:<form>" (wave 4, w4.go)
+	odd     peer.ID // the expected id of an "odd:" job
 	chain   [][]byte
 	advKey  gocrypto.Signer
 	peerKey *idKey  // honest counterpart
@@ -1157,12 +1179,36 @@ func (e *engine) runHistory() {
 			add(jobs[i].via, jobs[i].gen, jobs[i].hDials, jobs[i].expect)
 		}
 	}
+	// wave 4: a valid peer answers (an honest node / the adversary presenting its own identity), the
+	// caller required an id that is well formed but keyless / undecodable / an alias encoding of the
+	// answering key (w4.go): HandleConn in both roles (pinned handshake) and pconn DialPeer
+	// (unpinned, compared afterwards) must refuse
+	for gi, g := range []string{"honest", "own-identity"} {
+		pub := map[string][]byte{"honest": victim.pub, "own-identity": attacker.pub}[g]
+		forms := e.oddIDs(pub)[:12] // the well-formed multihashes
+		picks := []oddID{forms[0], forms[2+gi], forms[4+e.rng.Intn(4)], forms[8+e.rng.Intn(4)]}
+		if e.a.Scale > 1 {
+			picks = forms
+		}
+		for k, o := range picks {
+			for _, hd := range []bool{true, false} {
+				add("conn", g, hd, "odd:"+o.name)
+				jobs[len(jobs)-1].odd = o.id
+			}
+			if k%2 == gi {
+				add("pconn", g, true, "odd:"+o.name)
+				jobs[len(jobs)-1].odd = o.id
+			}
+		}
+	}
 	expectOf := func(j *job) peer.ID {
-		switch j.expect {
-		case "right":
+		switch {
+		case j.expect == "right":
 			return j.claimed
-		case "wrong":
+		case j.expect == "wrong":
 			return other.id // a valid identity that is not at the other end
+		case strings.HasPrefix(j.expect, "odd:"):
+			return j.odd
 		}
 		return ""
 	}
@@ -1176,7 +1222,7 @@ func (e *engine) runHistory() {
 			defer wg.Done()
 			defer func() { <-sem }()
 			wait := refuseWait
-			if j.valid && (j.expect != "wrong" || (j.via == "pconn" && j.hDials)) {
+			if j.valid && ((j.expect != "wrong" && !strings.HasPrefix(j.expect, "odd:")) || (j.via == "pconn" && j.hDials)) {
 				wait = okWait
 			}
 			var adv *tls.Config
@@ -1256,15 +1302,19 @@ func (e *engine) runHistory() {
 		}
 		e.rep.Compare(op+" #"+gen, model, impl, br, "tls.hist:"+gen, mon)
 		e.rep.Branches["hist.via-"+j.via]++
+		if strings.HasPrefix(j.expect, "odd:") {
+			e.rep.Branches["hist.expect-odd."+role]++
+		}
 	}
 }
 
 func (e *engine) run() {
-	e.rep.Rule = "real X.509 certificates minted with crypto/x509 (honest via NewIdentity and hand-minted for Ed25519/P-256/P-384/RSA certificate keys; re-signed by another key; corrupt certificate signature; extension missing / near-miss OIDs / duplicated in both orders / corrupted, truncated, random, empty ASN.1; signature over another key, other prefixes, bit-flipped, empty, extended; foreign signer; replayed extension; malformed key messages; expired / not yet valid; EKU; unknown critical extensions; 0/2/3-certificate chains; unparsable certificates; unknown key algorithm) through PubKeyFromCertChain and the VerifyPeerCertificate closure of ConfigForPeer(remote) for remote ∈ {any, right, wrong}; plus real in-memory QUIC/TLS handshakes (honest↔honest and honest↔adversary with forged certificates, both roles, with/without expected peer); the tls.Config fields of ConfigForPeer / BuildIncomingTlsConf; sessions negotiated with a permissive tls.Config (8 forged / valid chains × both roles, and a client without certificate) handed to HandleSession / NewLink / DetermineSessionIdentity; histories on ONE pconn listener and handler (victim; adversary from the victim's address; honest peer, forger and certificate-less client concurrently; a client offering session resumption); transport/common/conn (stream-backed) and the transport/websocket HTTP endpoint (in-memory listener) vs adversary; distinct = distinct op line"
+	e.rep.Rule = "real X.509 certificates minted with crypto/x509 (honest via NewIdentity and hand-minted for Ed25519/P-256/P-384/RSA certificate keys; re-signed by another key; corrupt certificate signature; extension missing / near-miss OIDs / duplicated in both orders / corrupted, truncated, random, empty ASN.1; signature over another key, other prefixes, bit-flipped, empty, extended; foreign signer; replayed extension; malformed key messages; expired / not yet valid; EKU; unknown critical extensions; 0/2/3-certificate chains; unparsable certificates; unknown key algorithm) through PubKeyFromCertChain and the VerifyPeerCertificate closure of ConfigForPeer(remote) for remote ∈ {any, right, wrong} and for expected ids that are well formed but keyless / undecodable / alias encodings of the answering key (sha2-256 / sha2-512 multihashes incl. the hash of the answering key, identity ids with RSA-typed / unknown-typed / 31-byte / garbage / empty key messages, reordered-field / trailing-field / non-minimal-varint aliases, truncated / extended framings); plus real in-memory QUIC/TLS handshakes (honest↔honest and honest↔adversary with forged certificates, both roles, with/without expected peer, and a valid peer answering a caller that required such a keyless / alias id: HandleConn both roles, pconn DialPeer, stream-backed HandleConn); the tls.Config fields of ConfigForPeer / BuildIncomingTlsConf; sessions negotiated with a permissive tls.Config (8 forged / valid chains × both roles, and a client without certificate) handed to HandleSession / NewLink / DetermineSessionIdentity; histories on ONE pconn listener and handler (victim; adversary from the victim's address; honest peer, forger and certificate-less client concurrently; a client offering session resumption); transport/common/conn (stream-backed) and the transport/websocket HTTP endpoint (in-memory listener) vs adversary; distinct = distinct op line"
 	e.rep.Require("pkfc.ok", "pkfc.chainLen", "pkfc.noExt", "pkfc.x509", "pkfc.selfSig", "pkfc.asn1", "pkfc.pubKey", "pkfc.sigInvalid",
 		"vpc.ok", "vpc.certParse", "vpc.peerMismatch", "vpc.chainLen", "vpc.noExt", "vpc.x509", "vpc.selfSig", "vpc.asn1", "vpc.pubKey", "vpc.sigInvalid",
 		"signedext", "consts",
 		"hist.established.honest", "hist.refused.honest", "hist.established.adversary", "hist.refused.adversary", "hist.via-conn", "hist.via-pconn",
+		"vpc.expect-sha256", "vpc.expect-identity", "vpc.expect-alias", "vpc.expect-truncated", "hist.expect-odd.dial", "hist.expect-odd.listen", "conn.expect-odd",
 		"config", "sess.established", "sess.refused", "sess.listen", "sess.dial", "lhist.established", "lhist.refused", "lhist.accounted", "conn.established", "conn.refused", "ws.established", "ws.refused")
 	// the constants the theorems are stated about are the specification's
 	want := "ok oid=" + oidStr(specOID) + " prefix=" + lib.Hex([]byte(specPrefix))
